@@ -384,3 +384,26 @@ TRUSTED_BASE = [
     "correspondence harness (C++17, in-process, ASan+UBSan build of the current working tree) and the line protocol; tolerances are the documented accuracies",
     "libm transcendental functions, the C++ compiler/memory model and OS are outside the model",
 ]
+
+def source_digest():
+    """sha256 over the library sources a check can depend on (src, public headers, tools), as they are in the working tree"""
+    import hashlib
+    h = hashlib.sha256()
+    for pat in ("src/*.cpp", "src/*.hh", "include/GeographicLib/*.hpp", "tools/*.cpp"):
+        for f in sorted(glob.glob(os.path.join(REPO, pat))):
+            h.update(os.path.basename(f).encode()); h.update(fread(f))
+    return h.hexdigest()
+
+
+def source_changed():
+    """True when the working tree differs from the tree the committed evidence was produced on (baseline_src.json)"""
+    if os.environ.get("GV_FORCE_X4"):      # used to validate the enlarged budget on the unchanged tree
+        return True
+    try:
+        base = json.load(open(os.path.join(VERIF, "baseline_src.json")))["digest"]
+    except Exception:
+        return False
+    try:
+        return source_digest() != base
+    except Exception:
+        return False
